@@ -153,11 +153,9 @@ func (c *Channel) Deliver(out, x []byte) ([]byte, error) {
 			if err != nil {
 				continue
 			}
-			if isApp {
-				appData = out
-				return nil, nil
-			}
 			// if the session became ready, then make it the current and notify.
+			// An initiator can become ready by receiving application data (RespDone lost or overtaken),
+			// so this has to happen before the data is handed out.
 			if !readyBefore && s.IsReady() {
 				if i != 2 {
 					panic(i)
@@ -165,6 +163,10 @@ func (c *Channel) Deliver(out, x []byte) ([]byte, error) {
 				if err := c.onReadySession(now); err != nil {
 					return nil, err
 				}
+			}
+			if isApp {
+				appData = out
+				return nil, nil
 			}
 			if len(out) == 0 {
 				continue
